@@ -87,4 +87,57 @@ def frun (p sent : Pat) : FState → List Char → List (List Char) → List (Op
     | (s', some n) => some n :: frun p sent s' (seen ++ c) cs
     | (_, none) => [none]
 
+/-! ### several commands on one Context
+
+`Context.run` uses the configured watchers; `Context._sudo` uses a CLONE of the configured list
+extended by one password responder, so the configured list is the same before and after every
+command.  Watcher state is per thread (`StreamWatcher(threading.local)`) and every command reads
+its output in new threads, so every watcher starts every command FRESH (index 0, nothing seen). -/
+
+/-- one command: `sudo = some prompt` for `Context.sudo`, `none` for `Context.run`;
+    `kw = some ws` when the call passes `watchers=ws`; `chunks` = the reads in which its output arrived -/
+structure Cmd where
+  sudo : Option Pat
+  kw : Option (List Pat) := none
+  chunks : List (List Char)
+  deriving Repr, DecidableEq
+
+/-- a `watchers=` kwarg replaces the configured watchers -/
+def Cmd.base (conf : List Pat) (c : Cmd) : List Pat :=
+  match c.kw with
+  | none => conf
+  | some ws => ws
+
+/-- the watchers a command runs with, given the configured ones; sudo adds its password responder -/
+def Cmd.watchers (conf : List Pat) (c : Cmd) : List Pat :=
+  match c.sudo with
+  | none => c.base conf
+  | some prompt => c.base conf ++ [prompt]
+
+/-- the configured watchers after the command: unchanged (the list was cloned) -/
+def Cmd.confAfter (conf : List Pat) (_c : Cmd) : List Pat := conf
+
+/-- the rule a seeded change had: without a `watchers=` kwarg sudo appends its responder to the
+    configured list itself -/
+def Cmd.confAfterLeaky (conf : List Pat) (c : Cmd) : List Pat :=
+  match c.kw with
+  | none => c.watchers conf
+  | some _ => conf
+
+/-- number of responses per watcher for one command; every watcher starts fresh -/
+def cmdResponses (ws : List Pat) (chunks : List (List Char)) : List Nat :=
+  ws.map (fun p => runChunks (submit p) 0 [] chunks)
+
+/-- a history of commands on one Context: per command, per watcher, the number of responses -/
+def historyWith (after : List Pat → Cmd → List Pat) : List Pat → List Cmd → List (List Nat)
+  | _, [] => []
+  | conf, c :: cs => cmdResponses (c.watchers conf) c.chunks :: historyWith after (after conf c) cs
+
+def history : List Pat → List Cmd → List (List Nat) := historyWith Cmd.confAfter
+def historyLeaky : List Pat → List Cmd → List (List Nat) := historyWith Cmd.confAfterLeaky
+
+/-- what the text alone determines: per watcher the occurrences in the command's whole output -/
+def cmdReference (conf : List Pat) (c : Cmd) : List Nat :=
+  (c.watchers conf).map (fun p => (findall p c.chunks.flatten).length)
+
 end Inv
